@@ -32,7 +32,7 @@ Qed.
 Lemma c20_oracle_sound gn t c :
   c20_valid gn t c -> c20_check t c = true -> c20_oracle gn t c = None.
 Proof.
-  destruct c as [reg0 g es obs|g sites es obs|site e obs|r o alloc h p]; simpl.
+  destruct c as [reg0 g es obs|g sites es obs|site e obs|r o alloc h p lst|cc n]; simpl.
   - reflexivity.
   - intros (gn' & -> & Hg & Hv & Hc). rewrite andb_true_iff. intros [Hi Ho].
     apply outcomes_eqb_eq in Ho. subst obs. subst gn'.
@@ -43,7 +43,51 @@ Proof.
     destruct (find_row site t) as [r|] eqn:E; [|discriminate].
     unfold check in Hc. rewrite forallb_forall in Hc. rewrite (Hc r (find_row_In _ _ _ E)). reflexivity.
   - intros [].
+  - intros -> H. apply N.eqb_eq in H. subst n. reflexivity.
 Qed.
+
+(* the faithful model violates "one Canceled response per watch": a client cancel yields two *)
+Lemma watch_cancel_once_refuted : exists cc, 1 < watch_cancel_responses true cc.
+Proof. exists true. vm_compute. reflexivity. Qed.
+
+Lemma watch_cancel_once_except_client_cancel : forall cc, cc = false -> watch_cancel_responses true cc = 1.
+Proof. intros cc ->. reflexivity. Qed.
+
+(* the oracle reports exactly the finding's signature on what the model produces *)
+Lemma c20_cancel_oracle_signature gn t cc n :
+  c20_check t (KCancel cc n) = true ->
+  c20_oracle gn t (KCancel cc n) = if cc then Some 1 else None.
+Proof.
+  simpl. intros H. apply N.eqb_eq in H. subst n. destruct cc; reflexivity.
+Qed.
+
+(* ---------- limits ---------- *)
+
+Lemma list_limit_max : list_limit max_int64 = Unlimited.
+Proof. vm_compute. reflexivity. Qed.
+
+Lemma list_limit_spec l :
+  (min_int64 <= l <= max_int64)%Z ->
+  list_limit l = if ((0 <? l)%Z && (l <? max_int64)%Z)%bool then Limited (l + 1)%Z else Unlimited.
+Proof.
+  intros Hr. unfold list_limit, wrap64, max_int64, min_int64 in *.
+  destruct (l >? 0)%Z eqn:E1.
+  - apply Z.gtb_lt in E1. assert (0 <? l = true)%Z as -> by (apply Z.ltb_lt; lia). simpl.
+    destruct (l <? 9223372036854775807)%Z eqn:E2.
+    + apply Z.ltb_lt in E2.
+      replace ((l + 1 + 9223372036854775808) mod 18446744073709551616)%Z with (l + 1 + 9223372036854775808)%Z
+        by (symmetry; apply Z.mod_small; lia).
+      replace (l + 1 + 9223372036854775808 - 9223372036854775808)%Z with (l + 1)%Z by lia.
+      assert (l + 1 >? 0 = true)%Z as -> by (apply Z.gtb_lt; lia). reflexivity.
+    + apply Z.ltb_ge in E2. assert (l = 9223372036854775807)%Z as -> by lia. vm_compute. reflexivity.
+  - assert (0 <? l = false)%Z as ->.
+    { apply Z.ltb_ge. destruct (Z.gtb_spec l 0); [discriminate|lia]. }
+    simpl. rewrite E1. reflexivity.
+Qed.
+
+(* no request makes a scan pre-allocate anything: the first attempt's buffer has capacity 0 *)
+Lemma scan_prealloc_zero l : scan_prealloc (list_limit l) 0 = 0.
+Proof. destruct (list_limit l); reflexivity. Qed.
 
 (* ---------- handlers ---------- *)
 
